@@ -368,23 +368,86 @@ def _verify_case(mod, fname, contract, params, unroll, prop_prefix, only_safety,
                 obs.append(core.Obligation(cname, core.REFUTED, "z3-5.1(py)", dt, model=model_inputs(small_model(pre + [rc] + block, k, Z3_MS) or mdl, k),
                                            detail="selector values %s are not allowed by the contract" % ints))
                 continue
-            goal = z3.substitute(goal, *subst)
             hyp = pre + [rc] + [t == v for t, v in zip(sels, vals)]
-            r2, s2, dt2 = _solve(hyp + [z3.Not(goal)], Z3_MS)
-            if r2 == z3.unsat:
-                obs.append(core.Obligation(cname, core.PROVED, "z3-5.1(py)", dt + dt2))
-            elif r2 == z3.sat:
-                m2 = small_model(hyp + [z3.Not(goal)], k, Z3_MS) or s2.model()
-                md = model_inputs(m2, k)
-                try:
-                    md["ret"] = m2.eval(rv, model_completion=True).as_long()
-                    md["observables"] = {str(i): (m2.eval(z3.substitute(k.outv(i), *subst), model_completion=True).as_long()
-                                                  if z3.is_true(m2.eval(z3.substitute(k.outc(i), *subst), model_completion=True)) else None) for i in sorted(k._obs_v)}
-                except Exception:
-                    pass
-                obs.append(core.Obligation(cname, core.REFUTED, "z3-5.1(py)", dt2, model=md, detail="ensures %s for selector values %s" % (nm, ints)))
-            else:
-                obs.append(core.Obligation(cname, core.UNKNOWN, "z3-5.1(py)", dt2, detail=s2.reason_unknown()))
+            parts = goal if isinstance(goal, list) else [("", goal)]
+            for part in parts:
+                plab, pgoal = part[0], part[1]
+                mode = part[2] if len(part) > 2 else ""
+                pname = cname + (":" + plab if plab else "")
+                if mode == "each":
+                    # a conjunction proved conjunct by conjunct on one incremental solver (the hypotheses are preprocessed once)
+                    t_each = time.time()
+                    sv = z3.Solver()
+                    sv.set("timeout", Z3_MS)
+                    for h_ in hyp:
+                        sv.add(h_)
+                    bad = None
+                    for g in pgoal:
+                        g = z3.substitute(g, *subst)
+                        sv.push()
+                        sv.add(z3.Not(g))
+                        rr = sv.check()
+                        if rr != z3.unsat:
+                            bad = (rr, g, sv.model() if rr == z3.sat else None, sv.reason_unknown() if rr != z3.sat else "")
+                            sv.pop()
+                            break
+                        sv.pop()
+                    dt2 = time.time() - t_each
+                    if bad is None:
+                        obs.append(core.Obligation(pname, core.PROVED, "z3-5.1(py)", dt2, detail="%d conjuncts, incremental" % len(pgoal)))
+                    elif bad[0] == z3.sat:
+                        m2 = small_model(hyp + [z3.Not(bad[1])], k, Z3_MS) or bad[2]
+                        obs.append(core.Obligation(pname, core.REFUTED, "z3-5.1(py)", dt2, model=model_inputs(m2, k), detail="ensures %s for selector values %s: conjunct %s" % (nm, ints, str(bad[1])[:200])))
+                    else:
+                        obs.append(core.Obligation(pname, core.UNKNOWN, "z3-5.1(py)", dt2, detail=bad[3]))
+                    continue
+                if mode == "any":
+                    # equivalent formulations of one clause: it is proved as soon as one of them is (escalating budgets)
+                    alts_ = [z3.substitute(g, *subst) for g in pgoal]
+                    done, last = False, None
+                    t_any = time.time()
+                    for budget in (4000, 30000, Z3_MS):
+                        for g in alts_:
+                            r2, s2, dt2 = _solve(hyp + [z3.Not(g)], budget)
+                            last = (r2, s2, g)
+                            if r2 in (z3.unsat, z3.sat):
+                                done = True
+                                break
+                        if done:
+                            break
+                    r2, s2, pgoal = last
+                    dt2 = time.time() - t_any
+                    if r2 == z3.unsat:
+                        obs.append(core.Obligation(pname, core.PROVED, "z3-5.1(py)", dt2))
+                        continue
+                else:
+                    pgoal = z3.substitute(pgoal, *subst)
+                # "lemma": proved without the case's hypotheses (a closed, universally quantified fact), then usable as a hint;
+                # "hint": proved under the hypotheses and then added to them for the later parts (cut rule)
+                if mode != "any":
+                    r2, s2, dt2 = _solve(([] if mode == "lemma" else hyp) + [z3.Not(pgoal)], 30000 if mode == "try-hint" else Z3_MS)
+                if mode == "try-hint":
+                    # an optional intermediate fact (e.g. one of several candidate witnesses): used if it is proved, ignored otherwise
+                    if r2 == z3.unsat:
+                        obs.append(core.Obligation(pname, core.PROVED, "z3-5.1(py)", dt2, detail="intermediate fact, then used as a hypothesis"))
+                        hyp = hyp + [pgoal]
+                    continue
+                if r2 == z3.unsat:
+                    obs.append(core.Obligation(pname, core.PROVED, "z3-5.1(py)", dt2))
+                    if mode in ("lemma", "hint"):
+                        hyp = hyp + ([pgoal] if mode == "hint" else list(part[3]))
+                elif r2 == z3.sat:
+                    m2 = small_model(hyp + [z3.Not(pgoal)], k, Z3_MS) or s2.model()
+                    md = model_inputs(m2, k)
+                    try:
+                        md["ret"] = m2.eval(rv, model_completion=True).as_long()
+                        md["observables"] = {str(i): (m2.eval(z3.substitute(k.outv(i), *subst), model_completion=True).as_long()
+                                                      if z3.is_true(m2.eval(z3.substitute(k.outc(i), *subst), model_completion=True)) else None) for i in sorted(k._obs_v)}
+                    except Exception:
+                        pass
+                    obs.append(core.Obligation(pname, core.REFUTED, "z3-5.1(py)", dt2, model=md, detail="ensures %s for selector values %s" % (nm, ints)))
+                else:
+                    obs.append(core.Obligation(pname, core.UNKNOWN, "z3-5.1(py)", dt2, detail=s2.reason_unknown()))
     # the function must be able to return (no vacuous proof through an always-trapping body)
     # (a vacuity guard, not an obligation: `unknown` under load is tolerated, only a definite `unsat` is an error)
     r, s, dt = _solve(pre + [rc, z3.ULE(k.n, enc.bv(64, 64)), z3.ULE(k.m, enc.bv(64, 64))], min(Z3_MS, 20000))
